@@ -64,6 +64,14 @@ Definition s_op (o : opn) (qs : list (Z * Z)) : res :=
                        else let t := fold_left (fun x y => (fst x * snd y, snd x * fst y)) rest a in RVal (canon (fst t) (snd t))
   | ORound m, [(n, 1); (d, 1)] =>
       if d =? 0 then RCond CDivZero else let q := s_quot m n d in RVals (canon_int q) (canon_int (n - q * d))
+  | ORound m, [a; b] =>        (* rationals: the quotient of a/b rounded, remainder a - q*b *)
+      if fst b =? 0 then RCond CDivZero
+      else let tn := fst a * snd b in let td := snd a * fst b in
+           let '(tn, td) := if td <? 0 then (- tn, - td) else (tn, td) in
+           let q := s_quot m tn td in
+           RVals (canon_int q) (canon (fst a * snd b - q * fst b * snd a) (snd a * snd b))
+  | ORound m, [a] =>
+      let q := s_quot m (fst a) (snd a) in RVals (canon_int q) (canon (fst a - q * snd a) (snd a))
   | OMod, [(n, 1); (d, 1)] => if d =? 0 then RCond CDivZero else RVal (canon_int (n mod d))
   | ORem, [(n, 1); (d, 1)] => if d =? 0 then RCond CDivZero else RVal (canon_int (Z.rem n d))
   | OAbs, [a] => RVal (canon (Z.abs (fst a)) (snd a))
